@@ -31,7 +31,7 @@ FLAG = {"GOOD": ".good", "UNKNOWN": ".unknown", "SUSPECT": ".suspect", "FAIL": "
 PYOP = {"add": ".add", "sub": ".sub", "mul": ".mul", "truediv": ".truediv", "pow": ".pow"}
 PIN_PROPS = {"C01": ["flag_codes"], "C04": ["flag_codes", "priorities"], "C19": ["cf_safe"], "C20": ["fx_ops"],
              "C03": ["defaults_valid", "src_gross_range_test"], "C09": ["default_spike", "src_spike_test"], "C11": ["default_flat"],
-             "C12": ["default_atten"], "C14": ["default_location"], "C10": ["src_rate_of_change_test"]}
+             "C12": ["default_atten"], "C14": ["default_location", "src_location_test"], "C10": ["src_rate_of_change_test"]}
 # function bodies translated by harness/translate.py: (Lean theorem about the committed transcription, its binder list, its statement)
 SRC_FUNCS = {
     "gross_range_test": ("IoosQc.NpSrc.C03_src_gross", "(inp : List V) (f : SeqArg) (s : Option SeqArg)",
@@ -40,6 +40,8 @@ SRC_FUNCS = {
                    "IoosQc.Gen.spike_test inp sus fail method = spikeTest method sus fail inp", "inp sus fail method"),
     "rate_of_change_test": ("IoosQc.NpSrc.C10_src_roc", "(inp : List V) (ts : List Int) (thr : Rat)",
                             "IoosQc.Gen.rate_of_change_test inp ts thr = rocTest inp ts thr", "inp ts thr"),
+    "location_test": ("IoosQc.NpSrc.C14_src_location", "(lon lat : List V) (bbox : SeqArg) (rm : Option Rat) (hops : List V)",
+                      "IoosQc.Gen.location_test lon lat bbox rm hops = locationTest lon lat bbox rm hops", "lon lat bbox rm hops"),
 }
 
 
@@ -205,7 +207,7 @@ def _src(name):
 
 
 EXTRACTORS = {"src_gross_range_test": _src("gross_range_test"), "src_spike_test": _src("spike_test"),
-              "src_rate_of_change_test": _src("rate_of_change_test"), "flag_codes": flag_codes, "priorities": priorities, "cf_safe": cf_safe, "fx_ops": fx_ops,
+              "src_rate_of_change_test": _src("rate_of_change_test"), "src_location_test": _src("location_test"), "flag_codes": flag_codes, "priorities": priorities, "cf_safe": cf_safe, "fx_ops": fx_ops,
               "defaults_valid": defaults_valid, "default_spike": default_spike, "default_flat": default_flat,
               "default_atten": default_atten, "default_location": default_location}
 
